@@ -60,7 +60,7 @@ WD = 10  # watchdog seconds per library call
 # the virtual network.  Nothing in this check may reach a real network: the library's default
 # fetcher is replaced for the life time of the process by a dispatcher into the current case.
 
-_NET = {'vfs': None, 'serve_default': False, 'log': None, 'default_log': None}
+_NET = {'vfs': None, 'serve_default': False, 'log': None, 'default_log': None, 'mark': None}
 
 
 def _default_fetcher(url):
@@ -71,6 +71,20 @@ def _default_fetcher(url):
 
 
 cssutils.util._defaultFetcher = _default_fetcher
+
+# harness-side marker: csscombine() = parse + resolveImports(); the number of fetches made when
+# resolveImports is entered first separates the two phases in the fetch log (nothing else is changed)
+_resolve_imports = cssutils.resolveImports
+
+
+def _marked_resolve_imports(sheet, target=None):
+    if _NET['mark'] is None and _NET['default_log'] is not None:
+        _NET['mark'] = len(_NET['default_log'])
+    return _resolve_imports(sheet, target)
+
+
+_marked_resolve_imports.__doc__ = _resolve_imports.__doc__
+cssutils.resolveImports = _marked_resolve_imports
 
 
 def _null_fetcher(url):
@@ -84,7 +98,7 @@ class Net:
         self.texts = texts
         self.log = []
         self.dlog = []
-        _NET.update(vfs=texts, serve_default=serve_default, default_log=self.dlog)
+        _NET.update(vfs=texts, serve_default=serve_default, default_log=self.dlog, mark=None)
 
     def fetcher(self, url):
         self.log.append(url)
@@ -621,6 +635,7 @@ def flatten_observe(res, case, texts, top, mode, tmp=None):
             res.violation('C19.flatten.total', f'{guard.crash_site(e)}|{_msg_class(e)}', case, 'the combined text', repr(e)[:300])
             return None
         log_after = (list(net.log), list(net.dlog))
+        n_parse = _NET['mark']
         res.clauses['C19.combine.output'] += 1
         if cssutils.ser is not guard._PRISTINE['ser']:
             res.violation('C19.combine.output', 'global-serializer-not-restored', case, 'cssutils.ser as before', 'another serializer')
@@ -635,6 +650,15 @@ def flatten_observe(res, case, texts, top, mode, tmp=None):
         has_charset = decoded.startswith('@charset')
         if has_charset != bool(enc) or (enc and not decoded.startswith(f'@charset "{enc}";')):
             res.violation('C19.combine.output', f'charset-rule|target={enc}', case, f'@charset "{enc}"' if enc else 'no @charset', decoded[:40])
+        # the text itself must be a valid sheet: @charset, @import, @namespace, then the rest
+        res.clauses['C19.flatten.order'] += 1
+        names = {'@charset': 0, '@import': 1, '@namespace': 2, '{': 3}
+        seq = [names[m.group(0)] for m in re.finditer(r'@charset|@import|@namespace|\{', re.sub(r'/\*.*?\*/', '', decoded, flags=re.S))]
+        label = ['charset', 'import', 'namespace', 'rule']
+        for a, b in zip(seq, seq[1:]):
+            if a > b:
+                res.violation('C19.flatten.order', f'{label[a]}-before-{label[b]}', case, 'charset < import < namespace < rules', [label[x] for x in seq], note=decoded[:600])
+                return None
         # read it back (default preferences, fetches of kept @import rules answered with "unavailable")
         guard.pristine()
         try:
@@ -652,11 +676,12 @@ def flatten_observe(res, case, texts, top, mode, tmp=None):
         errs = [m for lv, m in h.records if lv in ('ERROR', 'CRITICAL', 'FATAL') or (lv == 'WARNING' and 'While processing imported' not in m)]
         if errs:
             res.violation('C19.combine.output', 'output-not-clean-css|' + _msg_class(errs[0]), case, 'output parses without complaint', errs[:3], note=decoded[:600])
+            return None
         if p and p[0][0] == 'charset':
             if p[0][1] != (enc or 'utf-8'):
                 res.violation('C19.combine.output', f'charset-rule|target={enc}', case, enc, p[0][1])
             p = p[1:]
-        return {'proj': p, 'base': top, 'net': net, 'n_parse': None, 'order': order, 'text': decoded}
+        return {'proj': p, 'base': top, 'net': net, 'n_parse': n_parse, 'order': order, 'text': decoded}
     finally:
         net.close()
         if tmp is not None:
@@ -670,7 +695,7 @@ def _edge_class(path):
     """essential ingredient for host findings: the first edge on the import path that leaves the host"""
     for e in path:
         if e[0] in ('absolute', 'scheme'):
-            return e[0]
+            return 'cross-host'
     return 'same-host'
 
 
@@ -740,9 +765,14 @@ def judge_flat(res, case, vfs, info, top, obs, mode):
             name = [n for n, inf in info.items() if inf['url'] == tgt][0]
             why = 'missing' if info[name]['avail'] == 'missing' else 'unwrappable'
             parent_path = info[name]['path'][:-1]
+            orig = [h for sh in vfs.values() for h, _f, _m in sh['imports'] if h.endswith('/' + name + '.css') or h == name + '.css'][0]
+            if parent_path and got_imports[i][1] == orig:
+                sig = 'nested-kept-import-href-not-rebased'
+            else:
+                sig = f'kept-import-resolves-elsewhere|{ref.url_diff(tgt, gi[i][0])}|{why}|nested={bool(parent_path)}'
             res.violation(
-                'C19.flatten.urls', f'kept-import-resolves-elsewhere|{ref.url_diff(tgt, gi[i][0])}|{why}|nested={bool(parent_path)}',
-                case, exp['imports'], gi, note=f'raw href in the combined sheet: {got_imports[i][1]!r}\n{note}',
+                'C19.flatten.urls', sig, case, exp['imports'], gi,
+                note=f'href {orig!r} of the {why} target of sheet {name[:-1] or "t"!r} is {got_imports[i][1]!r} in the combined sheet\n{note}',
             )
         else:
             res.violation('C19.flatten.rules', f'kept-imports|expected={len(exp["imports"])}|got={len(gi)}', case, exp['imports'], gi, note=note)
@@ -812,20 +842,24 @@ def judge_fetch(res, case, vfs, info, top, obs, mode):
     net = obs['net']
     avail, missing = ref.targets(vfs, top)
     kind = mode[0]
-    log, dlog = net.log, net.dlog
+    n_parse = obs['n_parse']
     if kind == 'resolve':
-        if dlog:
-            what = 'missing-target' if all(u in missing for u in dlog) else 'other-url'
-            res.violation('C19.fetch', f'default-fetcher-used-instead-of-the-sheets-fetcher|{what}', case, [], dlog)
-        all_log = log + dlog
+        # the sheet was parsed with its own fetcher: the default fetcher has no business here
+        if net.dlog:
+            res.violation('C19.fetch', 'default-fetcher-used-instead-of-the-sheets-fetcher', case, [], net.dlog)
+        parse_log, flat_log = net.log[:n_parse], net.log[n_parse:] + net.dlog
     else:
-        all_log = list(dlog)
-        if kind != 'combine':
-            # the top sheet itself comes through the fetcher as well (url=) or is read from disk (path=)
-            if kind == 'combine-url':
-                if all_log.count(top) != 1:
-                    res.violation('C19.fetch', 'top-sheet-not-fetched-once', case, 1, all_log.count(top))
-                all_log = [u for u in all_log if u != top]
+        # csscombine builds its own parser: the (replaced) default fetcher is the fetcher
+        if n_parse is None:
+            res.violation('C19.fetch', 'csscombine-did-not-call-resolveImports', case, 'a call', 'none')
+            return
+        parse_log, flat_log = net.dlog[:n_parse], net.dlog[n_parse:]
+        if kind == 'combine-url':
+            # the top sheet itself comes through the fetcher as well
+            if (parse_log + flat_log).count(top) != 1:
+                res.violation('C19.fetch', 'top-sheet-not-fetched-once', case, 1, (parse_log + flat_log).count(top))
+            parse_log = [u for u in parse_log if u != top]
+    all_log = parse_log + flat_log
     for u in avail:
         c = all_log.count(u)
         if c != 1:
@@ -834,19 +868,12 @@ def judge_fetch(res, case, vfs, info, top, obs, mode):
     other = [u for u in all_log if u not in avail and u not in missing]
     if other:
         res.violation('C19.fetch', 'url-that-is-no-import-target-fetched', case, sorted(set(avail + missing)), other)
-    for u in missing:
-        if kind == 'resolve':
-            c_parse = log[:obs['n_parse']].count(u)
-            c_flat = log[obs['n_parse']:].count(u) + dlog.count(u)
-            if c_parse != 1:
-                res.violation('C19.fetch', 'missing-target-fetched-more-than-once-while-parsing' if c_parse else 'missing-target-never-tried', case, {u: 1}, {u: c_parse})
-            if c_flat:
-                res.violation('C19.fetch', 'missing-target-fetched-again-while-flattening', case, {u: 0}, {u: c_flat})
-        else:
-            c = all_log.count(u)
-            if c != 1:
-                res.violation('C19.fetch', 'missing-target-fetched-more-than-once-by-csscombine' if c else 'missing-target-never-tried', case, {u: 1}, {u: c})
-        break  # one missing target per case is judged (the first); the others behave alike
+    for u in missing[:1]:  # the first missing target of a case is judged; the others behave alike
+        c_parse, c_flat = parse_log.count(u), flat_log.count(u)
+        if c_parse != 1:
+            res.violation('C19.fetch', 'missing-target-fetched-more-than-once-while-parsing' if c_parse else 'missing-target-never-tried', case, {u: 1}, {u: c_parse})
+        if c_flat:
+            res.violation('C19.fetch', 'missing-target-fetched-again-while-flattening', case, {u: 0}, {u: c_flat})
     res.outcomes.add(h64(['fetch', kind, len(avail), len(missing), len(all_log)]))
 
 
@@ -987,7 +1014,7 @@ def shape_k(shape, tier):
     """number of sites that may be off default at once, by the number of edges of the shape"""
     edges = shape[0] + sum(shape[1:])
     if tier == 'quick':
-        return 2 if edges <= 3 else 1
+        return 2 if edges <= 2 else 1
     return 3 if edges <= 2 else 2
 
 
